@@ -28,7 +28,13 @@ def load_known():
             if line.startswith('finding:'):
                 m = re.match(r'finding:\s*property=(\S+)\s+obligation=(\S+)\s+(.*)$', line)
                 if m:
-                    findings.append({'property': m.group(1), 'obligation': m.group(2), 'what': m.group(3)})
+                    f = {'property': m.group(1), 'obligation': m.group(2), 'what': m.group(3)}
+                    # optional `observed=<sha256 prefix of the counterexample payload>`: the finding is THIS failing behaviour
+                    # only; the same obligation failing with another payload is a new violation
+                    mo = re.match(r'observed=([0-9a-f]{16})\s+(.*)$', f['what'])
+                    if mo:
+                        f['observed'] = mo.group(1); f['what'] = mo.group(2)
+                    findings.append(f)
             elif line.startswith('fixed:'):
                 fixed.append(line)
     return findings, fixed
